@@ -725,7 +725,16 @@ func (s *socket) Close(discard bool) {
 func (s *socket) closeTransport(discard bool) {
 	socket_log.Debug("closing the transport (discard? %t)", discard)
 	if discard {
-		s.Transport().Discard()
+		transport := s.Transport()
+		transport.Discard()
+		if transport.ReadyState() == "closing" {
+			// the transport is closing gracefully already (a polling transport whose
+			// close packet waits for the client's next poll, for up to its close
+			// timeout) and would ignore another Close: a forced close of the session
+			// (or a server shutdown) does not wait for the peer
+			s.OnClose("forced close")
+			return
+		}
 	}
 	s.Transport().Close(func() { s.OnClose("forced close") })
 }
